@@ -204,3 +204,44 @@ func init() {
 		},
 	}
 }
+
+func init() {
+	Specs["C12"] = Spec{
+		Gen: func(seed uint64, tier string) *Case {
+			c := GenConc(seed, "C12", ConcParams{MinClients: 2, MaxClients: 4, MaxTxns: 30, OpAtomic: 0, LongReaders: true, Rotate: true, Abandon: true})
+			r := newRng(seed ^ 0xc12)
+			c.Configs[0].MemtableByteThreshold = []int{1, 40, 120, 120}[r.Intn(4)]
+			c.Configs[0].ImmutableBuffer = []int{0, 1, 2, 10}[r.Intn(4)]
+			return c
+		},
+		Check: func(res *RunResult) *Eval {
+			ev := newEval()
+			commonEval(res, ev, true, false)
+			seen := map[string]bool{}
+			for _, rr := range res.Races {
+				if seen[rr.Class] {
+					continue
+				}
+				seen[rr.Class] = true
+				ev.Mine = append(ev.Mine, Violation{Oracle: "race", Class: rr.Class, Msg: "data race: " + rr.A + "  vs  " + rr.B + "\n" + rr.Text})
+			}
+			if res.Fatal == "" && !res.Sim.Deadlock && !res.Sim.Livelock {
+				vs, inc, n1 := CheckSnapshot(res.Case, res.Hist)
+				ev.Mine = append(ev.Mine, vs...)
+				ev.Inconclusive += inc
+				vs, inc, n2 := CheckSerializable(res.Case, res.Hist)
+				ev.Mine = append(ev.Mine, vs...)
+				ev.Inconclusive += inc
+				vs, judged, amb := CheckSSI(res.Case, res.Hist)
+				ev.Mine = append(ev.Mine, vs...)
+				ev.Probes["ssi_ambiguous_accepted"] += amb
+				ev.Evaluations = n1 + n2 + judged
+				ev.Nontrivial = n1 > 4 && res.NTables > 0
+			}
+			concProbes(res, ev)
+			ev.Probes["race_reports_engine"] += len(res.Races)
+			ev.Summary = "race detector on the serialised schedule (hand-off invisible to the detector), panics of any engine goroutine, and the C05/C06/C07 oracles on the same history"
+			return ev
+		},
+	}
+}
